@@ -613,7 +613,11 @@ class ImplViews(ImplEq):
             return "n/a"
         text = f"# comment\n{I.num_jobs} {I.num_machines}\n" + "\n".join(
             " ".join(f"{op.machine_id} {op.duration}" for op in job) for job in I.jobs) + "\n"
-        with _tempfile.TemporaryDirectory() as d:
+        # (one scratch path per process, rewritten for every instance: what is read back is what the file holds NOW)
+        if not getattr(ImplViews, "_TL_DIR", None) or not _os.path.isdir(ImplViews._TL_DIR):
+            ImplViews._TL_DIR = _tempfile.mkdtemp(prefix="verif_taillard_")
+        if True:
+            d = ImplViews._TL_DIR
             path = _os.path.join(d, "verif_inst.txt")
             with open(path, "w", encoding="utf-8") as f:
                 f.write(text)
